@@ -112,7 +112,7 @@ class HNative:
             value = torch.tensor(value, dtype=torch.get_default_dtype())
         if tuple(param.shape) != tuple(value.shape):
             raise RuntimeError(f'set_: shape {tuple(value.shape)} does not match {tuple(param.shape)}')
-        param.data = value.detach().clone().to(param.dtype if not param.dtype.is_floating_point else value.dtype)
+        param.data = value.detach().clone().to(param.dtype)      # keep the dtype the library chose (masks are float32 explicitly)
         return param
 
     def patch(self, module, name, value):
